@@ -1146,4 +1146,109 @@ example :
 
 end RemapExamples
 
+/-! ## Ports behind `add_adapter`'s addressing conversion (byte-addressed wishbone masters and slaves)
+
+  `SocABus` = C14's `convM2S`/`convS2M` slice assignments (`LitexModel/Export/Adapt.lean`) around the remappers around
+  the fabric.  The corollaries compose the routing theorems above with C14's address-preservation lemmas
+  (`Export.masterBus_spec`, `Export.chainWord_eq`, through `masterAdr_byte`/`slaveAdr_byte`). -/
+section AdapterThms
+open Litex.Soc
+
+/-- **Routing through the adapters** (every state, every input; master without remapper): slave `j` sees `cyc` iff
+    its owner drives `cyc` and slave `j`'s decoder matches the word address the owner's adapter puts on the bus
+    (`masterAdr`: the address itself for a word port, C14's `convM2S` slice for a byte port); the slave's own port
+    carries that word through its adapter (`slaveAdr`), every other signal is the owner's. -/
+theorem soc_adapter_route_partial (c : SocRCfg) (hcov : c.soc.topology = .p2p → ∀ a, c.soc.dec 0 a = true)
+    (s : SocState) (hwf : SocBus.WF c.soc s) (x : BusIn) (hn : 0 < c.soc.n) (j : Nat) (hj : j < c.soc.m)
+    (hnr : c.remaps[SocBus.owner s j]? = none ∨ c.remaps[SocBus.owner s j]? = some none) :
+    let o := (SocABus.machine c).out s x
+    let own := x.ms (SocBus.owner s j)
+    let w := c.masterAdr (SocBus.owner s j) own.adr
+    (o.toS j).cyc = (own.cyc && c.soc.dec j w) ∧ (o.toS j).adr = c.slaveAdr j w ∧
+    (o.toS j).stb = own.stb ∧ (o.toS j).we = own.we ∧ (o.toS j).datW = own.datW ∧ (o.toS j).sel = own.sel := by
+  intro o own w
+  have hroute := soc_route_partial c.soc hcov s hwf (c.mapIn (c.adaptIn x)) hn j hj
+  have hms : (c.mapIn (c.adaptIn x)).ms (SocBus.owner s j) = { own with adr := w } := by
+    rw [(socr_out_eq c s (c.adaptIn x)).2.2 _ hnr]
+    rfl
+  rw [hms] at hroute
+  obtain ⟨h1, h2, h3, h4, h5, h6, _, _⟩ := hroute
+  refine ⟨h1, ?_, h2, h3, h5, h6⟩
+  show c.slaveAdr j ((SocBus.out c.soc s (c.mapIn (c.adaptIn x))).toS j).adr = _
+  rw [h4]
+
+/-- FULL STATEMENT: on a bus built through `add_master`/`add_slave`, a byte-addressed master's cycle at byte address
+    `a` is presented to exactly the slave whose region contains `a`, at the right slave-local address.
+    `_partial`: the map's side conditions of `soc_accepted_disjoint_decoders_partial` (`RegionsDecodable`: no linker
+    slave region, aligned, at least one bus word), `a < 2^aw`, master without remapper, and `hcov` for the
+    point-to-point shortcut (open finding C06-p2p-partial-region-origin0).
+    Then: slave `j` sees `cyc` iff the owner drives `cyc` and `a` lies in region `j`'s decoded window; no other slave
+    owned by the same master sees it; slave `j`'s port carries the bus word `a / 2^sh` — as the byte address
+    `(a / 2^sh)·2^sh` when the slave port is byte-addressed (`slaveAdr_byte`). -/
+theorem soc_adapter_exact_partial (c : SocRCfg) (rs : List Region) (sh : Nat)
+    (hr : c.soc.regions = pairsOf rs) (hdw : c.soc.dw / 8 = 2 ^ sh) (hsh : sh ≤ c.soc.aw)
+    (hacc : checkRegionsOverlap false rs = none) (hall : RegionsDecodable c.soc.dw rs)
+    (hcov : c.soc.topology = .p2p → ∀ a, c.soc.dec 0 a = true)
+    (s : SocState) (hwf : SocBus.WF c.soc s) (x : BusIn) (hn : 0 < c.soc.n) (j : Nat) (hj : j < rs.length)
+    (hnr : c.remaps[SocBus.owner s j]? = none ∨ c.remaps[SocBus.owner s j]? = some none)
+    (hb : c.mByte.getD (SocBus.owner s j) false = true)
+    (ha : (x.ms (SocBus.owner s j)).adr < 2 ^ c.soc.aw) :
+    let o := (SocABus.machine c).out s x
+    let own := x.ms (SocBus.owner s j)
+    ((o.toS j).cyc = true ↔ own.cyc = true ∧ rs[j].InWindow own.adr) ∧
+    (o.toS j).adr = c.slaveAdr j (own.adr / 2 ^ sh) ∧
+    (∀ k (hk : k < rs.length), SocBus.owner s k = SocBus.owner s j → (o.toS k).cyc = true → (o.toS j).cyc = true → k = j) := by
+  intro o own
+  have hm : c.soc.m = rs.length := by simp [SocCfg.m, hr, pairsOf]
+  have hcsh : c.sh = sh := by unfold SocRCfg.sh; rw [hdw, Nat.log2_two_pow]
+  have hw : c.masterAdr (SocBus.owner s j) own.adr = own.adr / 2 ^ sh := by
+    rw [masterAdr_byte c _ _ hb ha (by rw [hcsh]; exact hsh), hcsh]
+  have hw' : c.masterAdr (SocBus.owner s j) (x.ms (SocBus.owner s j)).adr = (x.ms (SocBus.owner s j)).adr / 2 ^ sh := hw
+  have hwlt : own.adr / 2 ^ sh < 2 ^ (c.soc.aw - sh) := Export.div_lt_pow_sub _ _ _ ha hsh
+  obtain ⟨hl, hd, hal, hword⟩ := hall _ (List.getElem_mem hj)
+  have hroute := soc_adapter_route_partial c hcov s hwf x hn j (by rw [hm]; exact hj) hnr
+  simp only [] at hroute
+  rw [hw'] at hroute
+  have hdec : c.soc.dec j (own.adr / 2 ^ sh) = true ↔ rs[j].InWindow own.adr := by
+    rw [socDec_eq c.soc rs hr j hj hd, decoderAccepts_iff c.soc.aw c.soc.dw sh rs[j] _ hdw hsh hd hal hword hwlt, hdw]
+    exact inWindow_word_base rs[j] sh own.adr (by simpa [Region.aligned] using hal) (by rw [← hdw]; exact hword)
+  refine ⟨?_, hroute.2.1, ?_⟩
+  · rw [hroute.1, Bool.and_eq_true, hdec]
+  · intro k hk hown hck hcj
+    have hroutek := soc_adapter_route_partial c hcov s hwf x hn k (by rw [hm]; exact hk) (by rw [hown]; exact hnr)
+    rw [hown] at hroutek
+    simp only [] at hroutek
+    rw [hw'] at hroutek
+    rw [hroutek.1, Bool.and_eq_true] at hck
+    rw [hroute.1, Bool.and_eq_true] at hcj
+    have hdk := hck.2
+    have hdj := hcj.2
+    rw [socDec_eq c.soc rs hr k hk (hall _ (List.getElem_mem hk)).2.1] at hdk
+    rw [socDec_eq c.soc rs hr j hj hd] at hdj
+    exact accepted_index_disjoint c.soc.aw c.soc.dw sh rs hdw hsh hacc hall _ hwlt k j hk hj hdk hdj
+
+end AdapterThms
+
+section AdapterExamples
+open Litex.Soc
+
+/-- 64-bit bus (8 bytes per word, shift 3): byte-addressed master 0, word-addressed master 1; slave 0 `[0,+0x3000)` with
+    a word port, slave 1 `[0x4000,+0x1000)` with a byte port. -/
+def socB : SocRCfg :=
+  { soc := { n := 2, regions := [(0, 0x3000), (0x4000, 0x1000)], kind := .shared, reg := false, timeout := none,
+             dw := 64, aw := 32 },
+    mByte := [true, false], sByte := [false, true] }
+
+/-- Non-vacuity, and what seeded change C06-r5m2 breaks (shift taken from `address_width//8` = 2 instead of 3): byte
+    address 0x4008 driven by the byte master reaches slave 1 only, whose byte port sees 0x4008; byte 0x1008 reaches slave
+    0 at word 0x201.  With shift 2 the bus word of 0x1008 would be 0x402, i.e. byte 0x2010. -/
+example :
+    let x (a : Nat) : BusIn := { ms := fun _ => { cyc := true, stb := true, adr := a }, ss := fun _ => {} }
+    let o (a : Nat) := (SocABus.machine socB).out (SocBus.init socB.soc) (x a)
+    (List.range 2).map (fun j => (((o 0x4008).toS j).cyc, ((o 0x4008).toS j).adr)) = [(false, 0x801), (true, 0x4008)] ∧
+    (List.range 2).map (fun j => ((o 0x1008).toS j).cyc) = [true, false] ∧ ((o 0x1008).toS 0).adr = 0x201 ∧
+    Export.convM2S false true 2 30 0x1008 = 0x402 := by decide +kernel
+
+end AdapterExamples
+
 end Litex.C06
